@@ -93,6 +93,21 @@ def gen_cases(tier, rng):
     cases.append('H:f=0 arg:i:i0: arg:arg-file:af0: argv:2d2d6172672d66696c65,6e6f66696c65 exp:reject kind:named-file')
     cases.append('H:f=0 arg:i:i0: arg:arg-file:af0: xfile:%s:%s argv:2d69,38,2d2d6172672d66696c65,66312e7061,2d69,39 exp:reject kind:named-file'
                  % (A.hx('f1.pa'), A.hx('-i 5\n')))
+    # the separate values of a multi-value argument continue across the delivery boundaries (file line / file line,
+    # file / environment, environment / command line, named file / rest of the line)
+    mv = 'arg:v,values:vi0:multi arg:f:b0:init=0 '
+    cases.append('H:f=16 ' + mv + 'file:%s argv:- exp:b0=0;vi0=[1,2,3] kind:multi-across' % A.hx('-v 1\n2\n3\n'))
+    cases.append('H:f=16 ' + mv + 'file:%s argv:33,34 exp:b0=0;vi0=[1,2,3,4] kind:multi-across' % A.hx('--values 1 2'))
+    cases.append('H:f=32 ' + mv + 'env:%s argv:32,33 exp:b0=0;vi0=[1,2,3] kind:multi-across' % A.hx('-v 1'))
+    cases.append('H:f=48 ' + mv + 'file:%s env:%s argv:33 exp:b0=0;vi0=[1,2,3] kind:multi-across' % (A.hx('-v 1\n'), A.hx('2')))
+    cases.append('H:f=48 ' + mv + 'file:%s env:%s argv:33 exp:reject kind:multi-across' % (A.hx('-v 1\n'), A.hx('-f 2')))
+    cases.append('H:f=0 ' + mv + 'arg:arg-file:af0: xfile:%s:%s argv:2d2d6172672d66696c65,66312e7061,33 exp:b0=0;vi0=[1,2,3] kind:multi-across'
+                 % (A.hx('f1.pa'), A.hx('-v 1 2')))
+    for nl in range(1, 4):
+        for extra_line in ('', '# c\n', '\n'):
+            content = '-v 1\n' + extra_line + ''.join('%d\n' % (k + 2) for k in range(nl))
+            exp = ','.join(str(k) for k in range(1, nl + 2))
+            cases.append('H:f=16 ' + mv + 'file:%s argv:- exp:b0=0;vi0=[%s] kind:multi-across' % (A.hx(content), exp))
     guard = 0
     made = 0
     while made < ns and guard < ns * 30:
